@@ -547,6 +547,11 @@ def rounds_session(g):
     # ---- chain (C11, C06 partition independence)
     ex9, ex10 = Exporter(g, "v9"), Exporter(g, "ipfix")
     pks = packet_sequence(g, r.choice([2, 3, 4, 6, 8, 12]), ex9, ex10)
+    if r.random() < 0.3:
+        # the last packet is one that is reported as an error when delivered alone: data for a template nobody
+        # announced (V9), or a cut packet
+        bad = r.choice([g.v9_hdr(1) + g.set_(999, g.rbytes(8)), g.fixed(5, 2)[:-5], g.ix_msg([g.set_(2, b16(300) + b16(1) + b16(1) + b16(4))])[:-3]])
+        pks.append((0, bad))
     ops += ops_reset(("W", "S", "F", "T"))
     ops.append(call("W", [x for _, pk in pks for x in pk]))
     ops.append(call("T", [x for _, pk in pks for x in pk]))
